@@ -148,7 +148,13 @@ def execute(case):
             for vals in (1, 7):
                 lower = [Fiber(list(l), [vals + i for i in range(len(l))]) for l in lists]
                 root = Fiber(list(range(len(lower))), lower)
-                if case.get("deep"):
+                if case.get("lists2"):
+                    # two sibling groups one level up (the first one first): each is merged on its own, with the radix given
+                    lower2 = [Fiber(list(l), [vals + i for i in range(len(l))]) for l in case["lists2"]]
+                    root = Fiber([0, 3], [root, Fiber(list(range(len(lower2))), lower2)])
+                    t = Tensor.fromFiber(rank_ids=["P", "M", "K"], fiber=root)
+                    d = 1
+                elif case.get("deep"):
                     root = Fiber([0, 3], [root, Fiber([0], [Fiber([1], [vals])])])
                     t = Tensor.fromFiber(rank_ids=["P", "M", "K"], fiber=root)
                     d = 1
